@@ -55,6 +55,8 @@ class Run(RunBase):
         self.contained = {}  # id -> kind
         self.assigned = {}  # id -> True (all time steps of its horizon were assigned)
         self.stash = {}  # id -> (object, kind, assigned)  removed obstacles, kept for re-adding the same object
+        self.late = universe.get("late_lanelets", [])  # lanelets that join the network while the run is under way
+        self.grown = set()  # ids of late lanelets this scenario has taken over
         self.dir = None
         self.last = "start"
         # an independent scenario (same network, every obstacle added, nothing ever assigned or removed): its registries
@@ -72,10 +74,10 @@ class Run(RunBase):
             # (a cache keyed by the query only) would carry answers from one into the other.
             net2 = relabel_network(universe["network"], 1000)
             self.shadow = {"sc": build.build_scenario({"network": net2, "sid": {"country": "DEU"}}),
-                           "contained": {}, "assigned": {}, "stash": {}}
+                           "contained": {}, "assigned": {}, "stash": {}, "grown": set()}
             self.probe("second-scenario-with-other-lanelet-ids")
 
-    _FIELDS = ("sc", "contained", "assigned", "stash")
+    _FIELDS = ("sc", "contained", "assigned", "stash", "grown")
 
     def _swap(self):
         cur = {f: getattr(self, f) for f in self._FIELDS}
@@ -128,6 +130,10 @@ class Run(RunBase):
             return True
         if k == "swap":
             return self.shadow is not None
+        if k == "grow":
+            ids = [la["id"] for la in self.late if la["id"] in op["ids"]]
+            return len(ids) == len(op["ids"]) == len(set(op["ids"])) > 0 and not (set(ids) & self.grown) and \
+                (op["form"] != "list+refused" or bool(self.sc.lanelet_network.lanelets))
         return k in ("restart", "check")
 
     # ------------------------------------------------------------------ the oracle
@@ -357,7 +363,7 @@ class Run(RunBase):
             ts_arg = ts
             if ts is not None and op.get("ts_form") == "tuple":
                 ts_arg = tuple(ts)
-            elif ts is not None and op.get("ts_form") == "range" and ts == list(range(ts[0], ts[-1] + 1)):
+            elif ts is not None and op.get("ts_form") == "range" and list(ts) == list(range(ts[0], ts[-1] + 1)):
                 ts_arg = range(ts[0], ts[-1] + 1)
             self.sc.assign_obstacles_to_lanelets(time_steps=ts_arg, obstacle_ids=ids_arg)
         except Exception as e:  # noqa
@@ -380,6 +386,48 @@ class Run(RunBase):
                         self.assigned[i] = set(self.assigned.get(i) or set()) | hit
                         if set(self._timesteps(ob)) <= self.assigned[i]:
                             self.assigned[i] = True
+        return "ok"
+
+    def _op_grow(self, op):
+        """The map grows while obstacles are there: lanelets are added through the scenario (one by one, as a list, or
+        as a list whose LAST element the scenario must refuse - the batch fails after the lanelets were taken over),
+        then the obstacles are assigned again.  The new lanelets count like any other."""
+        specs = [la for la in self.late if la["id"] in op["ids"]]
+        built = [build.build_lanelet(la) for la in specs]
+        form = op["form"]
+        self.last = f"grow[{form}]+assign"
+        self.probe("network-grown:" + form)
+        try:
+            if form == "single":
+                for la in built:
+                    self.sc.add_objects(la)
+            elif form == "list":
+                self.sc.add_objects(built)
+            else:
+                self.faults["F-midbatch"] += 1
+                present = self.sc.lanelet_network.lanelets[0]
+                dup = copy.deepcopy(present)  # its id is taken in this scenario
+                try:
+                    self.sc.add_objects(built + [dup])
+                except ValueError:
+                    pass
+        except Exception as e:  # noqa
+            raise Violation(f"C07/add-raised/<-{self.last}", f"adding lanelets raised {type(e).__name__}: {e}")
+        have = {la.lanelet_id for la in self.sc.lanelet_network.lanelets}
+        if not set(op["ids"]) <= have:
+            raise Violation(f"C07/lanelets-not-taken-over/<-{self.last}",
+                            f"lanelets {sorted(set(op['ids']) - have)} are not in the network after add_objects")
+        self.grown |= set(op["ids"])
+        self.stash.clear()  # objects removed earlier carry assignments against the smaller map
+        todo = sorted(i for i, k in self.contained.items() if k in ("static", "dynamic"))
+        if todo:
+            try:
+                self.sc.assign_obstacles_to_lanelets(obstacle_ids=set(todo))
+            except Exception as e:  # noqa
+                raise Violation(f"C07/assign-raised[grow]/<-{self.last}",
+                                f"assign_obstacles_to_lanelets({todo}) raised {type(e).__name__}: {str(e)[:200]}")
+            for i in todo:
+                self.assigned[i] = True
         return "ok"
 
     def universe_shape_kind(self, oid):
@@ -415,7 +463,7 @@ class Run(RunBase):
         if how == "deepcopy":
             if op.get("keep"):
                 self.shadow = {"sc": self.sc, "stash": self.stash, "contained": dict(self.contained),
-                               "assigned": copy.deepcopy(self.assigned)}
+                               "assigned": copy.deepcopy(self.assigned), "grown": set(self.grown)}
                 self.probe("fork-keeps-original")
             self.sc, self.stash = copy.deepcopy((self.sc, self.stash))
             return "ok"
@@ -469,11 +517,22 @@ def _assigner(rng, run, cfg):
         if rng.chance(cfg.get("p_time_steps", 0.0)):
             dyn = [run.sc.obstacle_by_id(i) for i in (op["ids"] or c) if run.contained.get(i) == "dynamic"]
             lo = max([o.initial_state.time_step for o in dyn if o is not None], default=0)
-            op["time_steps"] = sorted(rng.sample(range(lo, lo + 5), rng.randint(1, 3)))
+            op["time_steps"] = rng.sample(range(lo, lo + 6), rng.randint(1, 4))  # any order, possibly past a horizon
         if not run.enabled(op):
             op.pop("time_steps", None)
         if not run.enabled(op) and c:
             op["ids"] = sorted(rng.subset(c, 0.6, at_least=1))
+        yield op if run.enabled(op) else None
+
+
+def _grower(rng, run, cfg):
+    while True:
+        free = sorted(la["id"] for la in run.late if la["id"] not in run.grown)
+        if not free or not rng.chance(0.5):
+            yield None
+            continue
+        op = {"op": "grow", "ids": rng.sample(free, rng.randint(1, len(free))),
+              "form": rng.choice(["single", "list", "list+refused"])}
         yield op if run.enabled(op) else None
 
 
@@ -521,7 +580,8 @@ class C07(Property):
                        "fork-keeps-original", "continued-on-the-other-copy", "creeping-obstacle-crosses-boundary",
                        "set-based-bystander-present", "center-on-lanelet-the-shape-does-not-touch",
                        "second-scenario-with-other-lanelet-ids",
-                       "pre-assigned-obstacle-added", "footprint-exactly-tangent-to-a-lanelet"]
+                       "pre-assigned-obstacle-added", "footprint-exactly-tangent-to-a-lanelet",
+                       "network-grown:single", "network-grown:list", "network-grown:list+refused"]
     assumptions = [
         "geometric truth comes from crkit.geom with its don't-care band; the footprint at a time step is read from the "
         "parameters of occupancy_at_time(t).shape (whether that occupancy is the right placement is C04)",
@@ -598,7 +658,20 @@ class C07(Property):
                 "init": {"t": t0, "pos": pts[0], "ori": th, "vel": step * 10, "acc": 0.0, "yaw": 0.0, "slip": 0.0},
                 "pred": {"kind": "traj", "states": [{"cls": "ks", "t": t0 + i, "pos": pts[i], "ori": th,
                                                      "vel": step * 10, "steer": 0.0} for i in range(1, n + 1)]}}
-        return {"network": net, "obstacles": obstacles}
+        late = []
+        if len(net["lanelets"]) >= 2 and rng.chance(0.35):
+            # some lanelets of the map only join while the run is under way (obstacles were placed with them in mind)
+            gone = set(rng.sample([la["id"] for la in net["lanelets"]], rng.randint(1, min(2, len(net["lanelets"]) - 1))))
+            keep = []
+            for la in net["lanelets"]:
+                la = dict(la, pred=[x for x in la.get("pred", []) if x not in gone and la["id"] not in gone],
+                          succ=[x for x in la.get("succ", []) if x not in gone and la["id"] not in gone])
+                for side in ("adjl", "adjr"):
+                    if la.get(side) in gone or (la["id"] in gone and side in la):
+                        la.pop(side), la.pop(side + "_same", None)
+                (late if la["id"] in gone else keep).append(la)
+            net = dict(net, lanelets=keep)
+        return {"network": net, "obstacles": obstacles, "late_lanelets": late}
 
     def new_run(self, universe, cfg):
         return Run(universe, cfg)
@@ -615,6 +688,8 @@ class C07(Property):
             out.append(Client(n, w, fn(rng.sub(n), run, cfg)))
         if cfg["restarts"]:
             out.append(Client("restarter", 0.8, _restarter(rng.sub("r"), run, cfg)))
+        if run.late:
+            out.append(Client("grower", 1.0, _grower(rng.sub("g"), run, cfg)))
         return out
 
     def prune_universe(self, universe, trace):
@@ -622,6 +697,9 @@ class C07(Property):
         small = dict(universe, obstacles={k: v for k, v in universe["obstacles"].items() if k in used})
         if small != universe:
             yield small
+        grown = {i for e in trace if e["op"]["op"] == "grow" for i in e["op"]["ids"]}
+        if any(la["id"] not in grown for la in universe.get("late_lanelets", [])):
+            yield dict(universe, late_lanelets=[la for la in universe["late_lanelets"] if la["id"] in grown])
         net = universe["network"]
         if len(net["lanelets"]) > 1:
             for i in range(len(net["lanelets"])):
@@ -652,6 +730,12 @@ class C07(Property):
                     yield dict(op, time_steps=op["time_steps"][:i] + op["time_steps"][i + 1:])
         if op["op"] == "restart" and op["how"] != "deepcopy":
             yield dict(op, how="deepcopy")
+        if op["op"] == "grow":
+            if len(op["ids"]) > 1:
+                for i in range(len(op["ids"])):
+                    yield dict(op, ids=op["ids"][:i] + op["ids"][i + 1:])
+            if op["form"] != "single":
+                yield dict(op, form="single")
 
     def describe_sim_time(self, sim_time, steps):
         return {"unit": "logical steps (one public API call each); the property has no clock", "steps": steps}
